@@ -138,6 +138,12 @@ def gen_history(rng):
     return xs, exp
 
 
+def declarations():
+    """every account and commodity the generator uses, declared: under --strict / --pedantic nothing is unknown"""
+    accts = ACCTS + ['Equity:Open', 'Teach:Eq'] + ['Teach:A%d' % i for i in range(len(DEC))]
+    return ''.join('account %s\n' % a for a in accts) + ''.join('commodity %s\n' % c for c in DEC) + '\n'
+
+
 def journal_sx(jid, xs, permissive):
     return lib.sx(['journal', jid, ['permissive', permissive]] + [x.sx() for x in xs])
 
@@ -151,7 +157,7 @@ def write_layout(ctx, name, xs, cut, skip=()):
     treats an include as the concatenation (C08), with the same options in force inside it (--permissive included)
     -> (main path, {file base name: text})"""
     def body(lo, hi):
-        return '\n'.join(x.text(i) for i, x in enumerate(xs) if lo <= i < hi and i not in skip)
+        return ('' if lo else PRELUDE[0]) + '\n'.join(x.text(i) for i, x in enumerate(xs) if lo <= i < hi and i not in skip)
     main = ctx.path(name)
     if cut is None:
         texts = {name: body(0, len(xs))}
@@ -165,6 +171,9 @@ def write_layout(ctx, name, xs, cut, skip=()):
     for k, v in texts.items():
         open(ctx.path(k), 'w').write(v)
     return main, texts
+
+
+PRELUDE = ['']      # declarations in front of the first file when a checking option is in force
 
 
 def run_layout(ctx, name, xs, cut, extra, skip=()):
@@ -204,6 +213,14 @@ def run(ctx, n_override=None):
         jid = 'j%d' % j
         text = X.render_journal(xs)
         extra = ['--permissive'] if permissive else []
+        # the checking options together: --permissive wins over --strict and --pedantic wherever it stands; alone, --strict
+        # and --pedantic leave assertions as they are (every name is declared, so they have nothing else to say)
+        PRELUDE[0] = ''
+        if rng.random() < 0.3:
+            PRELUDE[0] = declarations()
+            other = rng.choice([['--strict'], ['--pedantic'], ['--strict', '--pedantic']])
+            extra = (other + extra) if rng.random() < 0.5 else (extra + other)
+            res.count('checking-options:' + '+'.join(o.strip('-') for o in extra))
         st, out, err, path, texts = run_layout(ctx, 'C09_%d.dat' % (j % 6), xs, cut, extra)
         res.count('layout:' + (('two-f-options' if cut[0] == 'two' else 'included-file') if cut else 'one-file') + (':permissive' if permissive else ''))
         if cut:
